@@ -104,6 +104,7 @@ pub fn strategy() -> BoxedStrategy<Case> {
         2 => Just(1u8), // QoS 1 delivery (ack needed)
         1 => Just(2u8), // QoS 2 delivery + PUBREL
         2 => Just(3u8), // inbound packet of rx-1 / rx / rx+1 / huge bytes
+        1 => Just(4u8), // PUBREL for an identifier the client does not hold (PUBCOMP 0x92 owed: 5 bytes)
     ];
     (
         max,
@@ -115,8 +116,10 @@ pub fn strategy() -> BoxedStrategy<Case> {
         // second connection with a smaller maximum while something is retained
         prop_oneof![2 => Just(None), 1 => (2u32..40).prop_map(Some)],
         crate::cgen::chunks(),
+        // a send window of one: quota that a refused request leaks shows up at once
+        prop_oneof![3 => Just(false), 1 => Just(true)],
     )
-        .prop_map(|(max, rx, reqs, inbound, in_size, disc, second, write_chunks)| {
+        .prop_map(|(max, rx, reqs, inbound, in_size, disc, second, write_chunks, window_of_one)| {
             let m = max.unwrap_or(200);
             let mut steps: Vec<Step> = Vec::new();
             for (k, d, seed) in &reqs {
@@ -133,6 +136,10 @@ pub fn strategy() -> BoxedStrategy<Case> {
                     steps.push(Step::Broker(BrokerAct::Deliver { qos: 2, retain: false, topic: TopicSpec::new(1, 1), payload: PayloadSpec::new(1, 1), props: vec![], redeliver: None }));
                     steps.push(Step::PollIdle { max: 6 });
                     steps.push(Step::Broker(BrokerAct::PubRel { which: 0, unknown: None }));
+                    steps.push(Step::PollIdle { max: 6 });
+                }
+                4 => {
+                    steps.push(Step::Broker(BrokerAct::PubRel { which: 0, unknown: Some(9 + in_size as u16) }));
                     steps.push(Step::PollIdle { max: 6 });
                 }
                 3 => {
@@ -172,7 +179,11 @@ pub fn strategy() -> BoxedStrategy<Case> {
             }
             let io = IoCfg { read_chunks: vec![], write_chunks, pend_first: false, read_cuts: vec![] };
             let mut conns = vec![ConnScript {
-                connect: ConnectSpec { props: ConnackProps { max_packet: max, ..ConnackProps::default() }, io: io.clone(), ..ConnectSpec::default() },
+                connect: ConnectSpec {
+                    props: ConnackProps { max_packet: max, receive_max: if window_of_one && second.is_none() { Some(1) } else { None }, ..ConnackProps::default() },
+                    io: io.clone(),
+                    ..ConnectSpec::default()
+                },
                 steps,
                 end: EndHow::Drop,
             }];
@@ -304,6 +315,27 @@ pub fn eval(case: &Case) -> Out {
                 }
             }
             let _ = dead;
+        }
+    }
+    // (c') a PUBREL for an identifier the client does not hold must be answered with PUBCOMP 0x92
+    // (5 bytes); if that does not fit the connection ends with an error, it is not left wedged
+    if let Some(max) = case.conns[0].connect.props.max_packet {
+        let unknown_rel = trace.inbound.iter().any(|p| p.tr == 0 && matches!(&p.packet, Some(Packet::PubRel(_))))
+            && !trace.inbound.iter().any(|p| p.tr == 0 && matches!(&p.packet, Some(Packet::Publish(pb)) if pb.qos == 2));
+        let consumed = view.tl.iter().any(|t| matches!(t, crate::view::TL::InDone(i, _) if trace.inbound[*i].tr == 0 && matches!(&trace.inbound[*i].packet, Some(Packet::PubRel(_)))));
+        if unknown_rel && consumed {
+            let comp_sent = view.out.iter().any(|p| p.tr == 0 && matches!(p.packet, Packet::PubComp(_)));
+            if max <= 4 {
+                ack_too_large = true;
+                if comp_sent && max <= 3 {
+                    bad(&mut viol, "C14/oversize-ack-sent".into(), format!("broker maximum {max}: a PUBCOMP was sent"));
+                }
+                let err = trace.ops.iter().any(|o| o.res == OpRes::Err(ErrKind::PacketTooLarge));
+                let last_conn0 = last_connected_sample(&trace, 0);
+                if max <= 3 && (!err || last_conn0 != Some(false)) {
+                    bad(&mut viol, "C14/unsendable-ack-did-not-close".into(), format!("broker maximum {max}: the PUBCOMP owed for a PUBREL cannot be sent, expected an error and a dead handle (error seen: {err}, is_connected at the end: {last_conn0:?})"));
+                }
+            }
         }
     }
     // (f) inbound packets around the receive-buffer size
